@@ -95,6 +95,7 @@ CHECKS["C14"] = {
     "units": [
         {"name": "exhaustive-stops", "run": "^TestC14Exhaustive$", "kind": "plain", "shards": 8},
         {"name": "stream", "run": "^TestC14Stream$", "kind": "rapid", "checks": {"quick": 16000, "thorough": 400000}, "shards": {"quick": 8, "thorough": 16}},
+        {"name": "loopback", "run": "^TestC14Loopback$", "kind": "rapid", "checks": {"quick": 480, "thorough": 16000}, "shards": {"quick": 4, "thorough": 16}},
     ],
 }
 
